@@ -403,7 +403,6 @@ def p4(e: Engine, rep: Report):
 
 def p5(e: Engine, rep: Report):
     ctx = e.method_ctx(QUEUE, '_run_policies')
-    f = ctx.func.nested.get('recurse')
     where = ctx.func.qname
     rep.functions.add(where)
     for lp, n, L, i in common.stale_index_sites(ctx.func.node):
@@ -414,10 +413,34 @@ def p5(e: Engine, rep: Report):
                 'more than one envelope the index denotes another envelope, '
                 'whose replacement overwrites it (its recipients vanish)'
                 % (L, i), loc=ctx.func.loc(n))
+    # the function that walks the chain: it applies a policy and calls
+    # itself for the next one - a closure of _run_policies or a method
+    f, self_call, skip = None, None, 0
+    for nm, nf in sorted(ctx.func.nested.items()):
+        calls = [x for x in ast.walk(nf.node) if isinstance(x, ast.Call)]
+        if any(isinstance(c.func, ast.Name) and c.func.id == nm
+               for c in calls) and any(
+                isinstance(c.func, ast.Attribute) and c.func.attr == 'apply'
+                for c in calls):
+            f, self_call = nf, nm
     if f is None:
-        rep.error('anchor vanished: recurse() in Queue._run_policies')
+        qc = common.merged_class(e, QUEUE)
+        for nm, m in sorted(qc.methods.items()):
+            calls = [x for x in walk_own(m.node) if isinstance(x, ast.Call)]
+            if any(ast.unparse(c.func) == 'self.' + nm for c in calls) and \
+                    any(isinstance(c.func, ast.Attribute) and
+                        c.func.attr == 'apply' for c in calls) and \
+                    any(isinstance(x, ast.Call) and
+                        ast.unparse(x.func) == 'self.' + nm
+                        for x in walk_own(ctx.func.node)):
+                f, self_call, skip = m, nm, 1
+    if f is None:
+        rep.error('anchor vanished: the recursive walk over the policy '
+                  'chain below Queue._run_policies')
         return
     rctx = Ctx(f, QUEUE)
+    rwhere = f.qname
+    rep.functions.add(rwhere)
     g = e.build(rctx, raises=lambda b, n, r: set())
     fx = e.facts(g)
     rem = [n for n in g.nodes if n.kind == 'call' and
@@ -425,24 +448,33 @@ def p5(e: Engine, rep: Report):
     ext = [n for n in g.nodes if n.kind == 'call' and
            e.call_name(n) in ('extend',)]
     rec = [n for n in g.nodes if n.kind in ('call', 'call_enter') and
-           e.call_name(n) == 'recurse']
+           e.call_name(n) == self_call]
     app = [n for n in g.nodes if n.kind == 'call' and
            e.call_name(n) == 'apply']
     if not (rec and app):
-        rep.error('anchor vanished: recurse/apply in recurse')
+        rep.error('anchor vanished: recursion / apply in %s' % rwhere)
         return
+    params = f.params[skip:]
+    # which parameter is the envelope (handed to apply), which the position
+    a0 = app[0].ast.args[0] if app[0].ast.args else None
+    cur = a0.id if isinstance(a0, ast.Name) and a0.id in params else None
+    if cur is None:
+        rep.error('cannot tell which parameter of %s is the envelope handed '
+                  'to policy.apply()' % rwhere)
+        return
+    epos = params.index(cur)
     rep.evaluations += 1
     rep.check(bool(rem) and bool(ext), 'P5', where,
               'an envelope is replaced by the outputs of the policy',
-              'recurse() no longer does both results.remove(current) and '
+              'the walk no longer does both results.remove(current) and '
               'results.extend(ret): the original stays next to its '
               'replacements (every recipient is delivered twice) or the '
               'outputs are dropped', reason='remove + extend present',
-              loc=ctx.func.loc())
+              loc=f.loc())
     retv = None
-    for s in g.of_kind('stmt'):
-        if isinstance(s.ast, ast.Assign) and s.ast.value is app[0].ast:
-            retv = path_of(s.ast.targets[0], s.frame)
+    for s2 in g.of_kind('stmt'):
+        if isinstance(s2.ast, ast.Assign) and s2.ast.value is app[0].ast:
+            retv = path_of(s2.ast.targets[0], s2.frame)
     for n in rem + ext:
         rep.evaluations += 1
         rep.check(retv is not None and holds(fx.at(n), (True, retv)), 'P5',
@@ -452,8 +484,6 @@ def p5(e: Engine, rep: Report):
                   'result list although the policy returned nothing: the '
                   'message disappears (or is duplicated)', loc=n.loc(),
                   reason='dominated by truthy(ret)')
-    before = dataflow.must_events_before(
-        g, lambda n: [e.call_name(n)] if n in rem + ext else [])
     after = dataflow.must_events_after(
         g, lambda n: ['extend'] if n in ext else [], edge=c07.no_call_exc)
     for n in rem:
@@ -464,42 +494,80 @@ def p5(e: Engine, rep: Report):
                   'outputs', 'results.remove(current) is not followed by '
                   'results.extend(ret) on every path', loc=n.loc(),
                   reason='remove then extend')
-    # recursion: i+1 everywhere, on every output and on the unchanged one
+    # recursion: position + 1 everywhere
+
+    def env_arg(n):
+        a = n.ast.args
+        return a[epos] if epos < len(a) else None
     for n in rec:
         rep.evaluations += 1
-        a = n.ast.args
-        ok = len(a) == 2 and isinstance(a[1], ast.BinOp) and \
-            isinstance(a[1].op, ast.Add) and \
-            isinstance(a[1].right, ast.Constant) and a[1].right.value == 1
-        rep.check(ok, 'P5', where, 'recursion advances to the next policy',
-                  'recurse is called with `%s`: a policy is skipped or '
-                  'applied forever' % (ast.unparse(a[1]) if len(a) > 1
-                                       else None), loc=n.loc(),
-                  reason='recurse(x, i + 1)')
-    loops = [n for n in g.of_kind('iter') if isinstance(n.ast, ast.For) and
-             retv is not None and path_of(n.ast.iter, n.frame) == retv]
+        inc = [i for i, a in enumerate(n.ast.args)
+               if isinstance(a, ast.BinOp) and isinstance(a.op, ast.Add) and
+               isinstance(a.right, ast.Constant) and a.right.value == 1 and
+               isinstance(a.left, ast.Name) and i < len(params) and
+               a.left.id == params[i]]
+        rep.check(bool(inc), 'P5', where,
+                  'recursion advances to the next policy',
+                  'the walk calls itself with `%s`: a policy is skipped or '
+                  'applied forever' % ', '.join(
+                      ast.unparse(a) for a in n.ast.args), loc=n.loc(),
+                  reason='same position parameter + 1')
+
+    def in_loop(n, lp):
+        return any(sc.kind == 'loop' and sc.ast is lp.ast for sc in n.scopes)
+
+    def loop_kind(lp):
+        """'outputs': iterates what apply() returned; 'successors':
+        iterates a variable that is the outputs when there are some and
+        exactly the current envelope otherwise; None: something else"""
+        ip = path_of(lp.ast.iter, lp.frame)
+        if retv is None or ip is None:
+            return None
+        if ip == retv:
+            return 'outputs'
+        defs = common.reaching_defs(g, lp, ip)
+        if not defs or any(d is None or not isinstance(d.ast, ast.Assign)
+                           for d in defs):
+            return None
+        kinds = set()
+        for d in defs:
+            v = d.ast.value
+            st = fx.at(d)
+            if path_of(v, d.frame) == retv and holds(st, (True, retv)):
+                kinds.add('out')
+            elif isinstance(v, (ast.Tuple, ast.List)) and \
+                    len(v.elts) == 1 and isinstance(v.elts[0], ast.Name) \
+                    and v.elts[0].id == cur and holds(st, (False, retv)):
+                kinds.add('cur')
+            else:
+                return None
+        return 'successors' if kinds == {'out', 'cur'} else None
+    loops = [(n, loop_kind(n)) for n in g.of_kind('iter')
+             if isinstance(n.ast, ast.For)]
+    loops = [(n, k) for n, k in loops if k]
     rep.evaluations += 2
     ok = False
-    for lp in loops:
+    both = False
+    for lp, kind in loops:
         counts = common.per_iteration_counts(
             g, lp, lambda n: 1 if n in rec else 0)
         lv = ast.unparse(lp.ast.target)
-        args_ok = all(ast.unparse(n.ast.args[0]) == lv for n in rec if any(
-            sc.kind == 'loop' and sc.ast is lp.ast for sc in n.scopes))
+        args_ok = all(env_arg(n) is not None and
+                      ast.unparse(env_arg(n)) == lv
+                      for n in rec if in_loop(n, lp))
         ok = counts == frozenset([1]) and args_ok
+        both = ok and kind == 'successors'
     rep.check(ok, 'P5', where, 'every output envelope runs through the '
               'remaining policies', 'not every envelope a policy returned '
               'is passed on to the later policies (exactly once)',
-              reason='for env in ret: recurse(env, i+1)',
-              loc=ctx.func.loc())
+              reason='for env in ret: recurse(env, i+1)', loc=f.loc())
     # the no-output branch continues with the same envelope
-    cur = f.params[0]
     other = [n for n in rec if not any(sc.kind == 'loop'
                                        for sc in n.scopes)]
-    rep.check(bool(other) and all(
-        ast.unparse(n.ast.args[0]) == cur and retv is not None and
-        holds(fx.at(n), (False, retv)) for n in other), 'P5', where,
+    rep.check(both or (bool(other) and all(
+        env_arg(n) is not None and ast.unparse(env_arg(n)) == cur and
+        retv is not None and holds(fx.at(n), (False, retv))
+        for n in other)), 'P5', where,
         'an untouched envelope runs through the remaining policies',
         'when a policy returns nothing the envelope is not handed to the '
-        'later policies', reason='else: recurse(current, i+1)',
-        loc=ctx.func.loc())
+        'later policies', reason='else: recurse(current, i+1)', loc=f.loc())
